@@ -828,10 +828,33 @@ def pattern_const_f32(context, tree):
     return d
 
 
+def canonical_operand(context, tree, reg):
+    """Give the canonical form of an 8 or 16 bits operand of the given tree.
+
+    Arithmetic on 8 and 16 bits values happens in 32 bits registers, so the
+    upper bits of the register can hold an overflow. Operations which
+    depend on those bits (compare, shift right, divide) need the value
+    sign extended (signed types) or zero extended (unsigned types).
+    """
+    for bits in (8, 16):
+        for signed in (True, False):
+            if tree.name.endswith(("I" if signed else "U") + str(bits)):
+                d = context.new_reg(RiscvRegister)
+                context.emit(Slli(d, reg, 32 - bits))
+                if signed:
+                    context.emit(Srai(d, d, 32 - bits))
+                else:
+                    context.emit(Srli(d, d, 32 - bits))
+                return d
+    return reg
+
+
 @isa.pattern("stm", "CJMPI32(reg, reg)", size=4)
 @isa.pattern("stm", "CJMPI16(reg, reg)", size=4)
 @isa.pattern("stm", "CJMPI8(reg, reg)", size=4)
 def pattern_cjmpi(context, tree, c0, c1):
+    c0 = canonical_operand(context, tree, c0)
+    c1 = canonical_operand(context, tree, c1)
     op, yes_label, no_label = tree.value
     opnames = {"<": Blt, ">": Bgt, "==": Beq, "!=": Bne, ">=": Bge, "<=": Ble}
     Bop = opnames[op]
@@ -844,6 +867,8 @@ def pattern_cjmpi(context, tree, c0, c1):
 @isa.pattern("stm", "CJMPU16(reg, reg)", size=4)
 @isa.pattern("stm", "CJMPU32(reg, reg)", size=4)
 def pattern_cjmpu(context, tree, c0, c1):
+    c0 = canonical_operand(context, tree, c0)
+    c1 = canonical_operand(context, tree, c1)
     op, yes_label, no_label = tree.value
     opnames = {
         "<": Bltu,
@@ -1227,6 +1252,7 @@ def pattern_or_i32_const_reg(context, tree, c0):
 @isa.pattern("reg", "SHRU16(reg, reg)", size=2)
 @isa.pattern("reg", "SHRU32(reg, reg)", size=2)
 def pattern_shr_u32(context, tree, c0, c1):
+    c0 = canonical_operand(context, tree, c0)
     d = context.new_reg(RiscvRegister)
     context.emit(Srl(d, c0, c1))
     return d
@@ -1325,6 +1351,8 @@ def pattern_div_i32(context, tree, c0, c1):
 @isa.pattern("reg", "DIVU16(reg, reg)", size=10)
 @isa.pattern("reg", "DIVU32(reg, reg)", size=10)
 def pattern_div_u32(context, tree, c0, c1):
+    c0 = canonical_operand(context, tree, c0)
+    c1 = canonical_operand(context, tree, c1)
     d = context.new_reg(RiscvRegister)
     context.emit(Divu(d, c0, c1))
     return d
@@ -1340,6 +1368,8 @@ def pattern_rem_i32(context, tree, c0, c1):
 @isa.pattern("reg", "REMU16(reg, reg)", size=10)
 @isa.pattern("reg", "REMU32(reg, reg)", size=10)
 def pattern_rem_u32(context, tree, c0, c1):
+    c0 = canonical_operand(context, tree, c0)
+    c1 = canonical_operand(context, tree, c1)
     d = context.new_reg(RiscvRegister)
     context.emit(Remu(d, c0, c1))
     return d
